@@ -281,11 +281,16 @@ def c16(out):
 def c17(out):
     out.rule = ("histories ending in cleanup for every object kind (CTR / parallel ECB) x cipher x back end, keyed with all-0xFF/random keys, tweaks and counters and left mid-batch so round keys, tweak, "
                 "counters and buffered keystream are non-zero; the allocator wrapper scans every byte of every block at the moment the library passes it to free(). A case counts as non-vacuous only if the "
-                "block held non-zero bytes right before cleanup (measured). Mandatory on the -O3 gcc and clang builds where a dead-store wipe would be optimised away.")
+                "block held non-zero bytes right before cleanup (measured). Mandatory on the -O3 gcc and clang builds where a dead-store wipe would be optimised away. Repeated in a process where locking memory fails (mlock family -> ENOMEM through seccomp, RLIMIT_MEMLOCK=0), "
+                "and with 220 objects of all kinds alive at once.")
     v = [("prod", n(out, 1800, 60000)), ("clang", n(out, 1800, 60000)), ("asan", n(out, 300, 6000)), ("prod+NOSIMD", n(out, 600, 6000)), ("clang+O2+W32", n(out, 600, 6000))]
     if out.tier == "thorough":
         v += [("clang+O2", 10000), ("prod+O2", 10000), ("prod+NOSIMD", 6000), ("prod+W32", 6000), ("clang+Os", 6000)]
     _life(out, "C17", "c17", v)
+    # the same in a resource-starved process: mlock/mlock2/mlockall fail (seccomp) and RLIMIT_MEMLOCK is 0
+    for vname, cases in [("prod", n(out, 600, 12000)), ("clang", n(out, 300, 6000))]:
+        exe = build_driver("drv_life", ["drv_life.c", "allocmon.c"] + HIST, vname, extra=WRAP)
+        run_sharded(out, exe, ["--prop", "C17", "--mode", "c17", "--starve", "1"], vname, cases, label="mlock-fails")
     nz = out.counters.get("blocks_nonzero_before_cleanup", 0)
     if nz < 10:
         out.inconclusive.append({"reason": "wipe monitor saw fewer than 10 blocks that were non-zero before cleanup (%d)" % nz})
